@@ -139,6 +139,8 @@ pub struct FarmWorld {
     pub hub_pairs: Vec<(u64, u64)>,
     /// branch counters noted while evaluating oracles (flushed into the trace by `exec`)
     pub hits: Vec<String>,
+    /// (user, nonce, amount, value) of the latest successful `calcRewards` view (C20 quote = execution)
+    pub last_quote: Option<(u64, u64, BigUint, BigUint)>,
 }
 
 /// run `$body` as a transaction on whichever farm contract this world deployed
@@ -294,7 +296,7 @@ impl FarmWorld {
         FarmWorld {
             b, kind, same, header: header.to_string(), owner, users, farm, fwlr, mock, ef, hub,
             block: 0, epoch: epoch0, epoch0, max_nonce: 0, log: vec![],
-            led: super::oracle::Ledger::default(), pending: vec![], hub_pairs: vec![], hits: vec![],
+            led: super::oracle::Ledger::default(), pending: vec![], hub_pairs: vec![], hits: vec![], last_quote: None,
         }
     }
 
